@@ -266,3 +266,56 @@ func HarnessRestart(k int) {
 	}
 	vh.Reach("unchanged")
 }
+
+// HarnessInitRestart (C05): the whole start-up sequence of the service, database.Init, run on a
+// database file that an earlier run (possibly interrupted in the middle of an ingestion) left
+// behind: it succeeds and leaves every row as it was. Whatever a start does - today: connect,
+// migrations, genesis insertion - is executed from the current source; only opening the file and
+// the migration library are stubbed (the schema is in place).
+func HarnessInitRestart(k int) {
+	cfg := &config.AppConfig{
+		Db:  &config.DbConfig{Engine: config.DBSQLite, SchemaPath: vhdb.MigrationsDir(), SQLite: config.SQLiteConfig{FilePath: vhdb.TempPath()}},
+		P2P: &config.P2PConfig{ChainNetType: config.MainNet},
+	}
+	log := vh.Logger()
+	// the first start
+	db, err := Init(cfg, log)
+	vh.Assert("C05/first-start-succeeds", err == nil && db != nil)
+	if err != nil || db == nil {
+		return
+	}
+	first, ok := hstore.Load(db)
+	vh.Assert("C05/first-start-creates-exactly-genesis", ok && len(first) == 1 && first[0].Height == 0 && first[0].State == hstore.L)
+	if !ok || len(first) != 1 {
+		return
+	}
+	// what an ingestion history, possibly cut off in the middle of a reorganisation, left behind:
+	// arbitrary further rows (the table guarantees distinct hashes, nothing else)
+	pre := []hstore.H{first[0]}
+	for i := 1; i < k; i++ {
+		h := hstore.NondetH()
+		for j := range pre {
+			vh.Assume(!vh.HashEq(h.Hash, pre[j].Hash))
+		}
+		vh.Assume(vh.And(h.State <= hstore.O, h.Height >= 1, h.Height < hstore.MaxHeight, vh.BigLe(big.NewInt(0), h.W), vh.BigLe(big.NewInt(0), h.CW)))
+		vhdb.InsertHeaderRow(db, h.Row())
+		pre = append(pre, h)
+	}
+	_ = db.Close()
+
+	// restart
+	db2, err2 := Init(cfg, log)
+	vh.Assert("C05/restart-succeeds", err2 == nil && db2 != nil)
+	if err2 != nil || db2 == nil {
+		return
+	}
+	post, ok2 := hstore.Load(db2)
+	vh.Assert("C05/restart-changes-nothing", ok2 && len(post) == len(pre))
+	if ok2 && len(post) == len(pre) {
+		for i := range pre {
+			vh.Assert("C05/restart-changes-nothing", vh.And(hstore.SameButState(pre[i], post[i]), pre[i].State == post[i].State))
+		}
+	}
+	_ = db2.Close()
+	vh.Reach("end")
+}
